@@ -338,7 +338,7 @@ def twoArgRep (R1 R2 : ArithTy) : FltTy :=
 
 /-! ### Inverses (math.hh:230-299) -/
 
-/-- The literal in `constexpr R threshold = 1'000'000;`. -/
+/-- The literal in `constexpr R threshold{1'000'000};`. -/
 def inverseThresholdLiteral : Nat := 1000000
 
 /-- `UNITY.in<Rep>(associated_unit(target_units) * U{})`, `K` the magnitude of
@@ -384,24 +384,29 @@ def inverseIn (TR R : ArithTy) (K : Mag) (x : Val) : Res Val :=
     -- the quotient has the type of the division; `static_cast<TargetRep>` converts it
     (divide Rep R k x).bind fun q => staticCast q TR
 
-/-- `constexpr R threshold = 1'000'000;` — an implicit conversion of the `int` literal. -/
-def thresholdOf (R : ArithTy) : Val :=
+/-- `constexpr R threshold{1'000'000};` (math.hh:268) — list-initialisation: for an integral `R`
+that cannot hold the literal this is a narrowing conversion and the program is ill-formed
+(`none`); for floating `R` the literal is exactly representable, so it is accepted. -/
+def thresholdOf (R : ArithTy) : Option Val :=
   match R with
-  | .int t => .i (t.wrap inverseThresholdLiteral)
-  | .flt f => .f (rne f (inverseThresholdLiteral : Rat))
+  | .int t => if t.inRange (inverseThresholdLiteral : Int) then some (.i (inverseThresholdLiteral : Int)) else none
+  | .flt f => some (.f (rne f (inverseThresholdLiteral : Rat)))
 
 def valGe : Val → Val → Bool
   | .i a, .i b => decide (a ≥ b)
   | .f a, .f b => FVal.le b a
   | _, _ => false
 
-/-- Whether implicit-rep `inverse_in(target_units, q)` compiles: `UNITY.in<R>(…)` must be
-well-formed (it is an operand of the asserted expression for every `R`), and
-`UNITY.in<R>(…) >= threshold || is_floating_point<R>`. -/
+/-- Whether implicit-rep `inverse_in(target_units, q)` compiles: the threshold declaration must be
+well-formed, `UNITY.in<R>(…)` must be well-formed (it is an operand of the asserted expression for
+every `R`), and `UNITY.in<R>(…) >= threshold || is_floating_point<R>`. -/
 def inverseImplicitCompiles (R : ArithTy) (K : Mag) : Bool :=
-  match unityIn R K with
-  | .ok k => valGe k (thresholdOf R) || R.isFloat
-  | _ => false
+  match thresholdOf R with
+  | none => false
+  | some thr =>
+    match unityIn R K with
+    | .ok k => valGe k thr || R.isFloat
+    | _ => false
 
 /-- Implicit-rep `inverse_in(target_units, q)` (and the value of `inverse_as`). -/
 def inverseInImplicit (R : ArithTy) (K : Mag) (x : Val) : Res Val :=
